@@ -6,6 +6,7 @@ import (
 	"fmt"
 	"io"
 	"net"
+	"os"
 	"sync"
 	"sync/atomic"
 	"time"
@@ -325,9 +326,15 @@ type Listener struct {
 	Addr *net.TCPAddr
 }
 
-// Listen binds 127.0.0.1:0.
+// LoopHost is a loopback address unique to this process (every 127/8 address is local on Linux).
+// Other workloads on the machine use 127.0.0.1; with a private address a dial to a port whose listener
+// has just gone away is refused instead of reaching a foreign listener that picked up the same
+// ephemeral port, and a re-listen on a fixed port cannot lose it to another process.
+var LoopHost = fmt.Sprintf("127.%d.%d.%d", 64+(os.Getpid()>>16)&63, 1+(os.Getpid()>>8)&0xFF%254, 1+os.Getpid()&0xFF%254)
+
+// Listen binds LoopHost:0.
 func Listen() (*Listener, error) {
-	l, err := net.ListenTCP("tcp4", &net.TCPAddr{IP: net.IPv4(127, 0, 0, 1)})
+	l, err := net.ListenTCP("tcp4", &net.TCPAddr{IP: net.ParseIP(LoopHost)})
 	if err != nil {
 		return nil, err
 	}
